@@ -1,4 +1,6 @@
 import Libp2pModel.Proofs.C38Order
+import Libp2pModel.Model.C38_Walk
+import Libp2pModel.Proofs.C37Spec
 /-!
 # C38 — closest-key enumeration is complete and sorted (property theorems)
 
@@ -386,6 +388,176 @@ example : WF ((Table.new 6 20).insert 7).1 :=
   (wf_insert (wf_new 6 20 (by decide)) (List.length_replicate ..) 7 (by decide)).1
 example : bucketIndex 5 = some 2 := by decide
 
+/-! ## `closest_keys` on the full table: pending entries are applied during the walk -/
+
+/-- bucket `j` after `apply_pending` at the table's current instant -/
+def appliedB (t : C37.Table) (j : Nat) : C37.Bucket := ((t.bucket j).applyPending t.now (2 * t.ops)).1
+
+theorem appliedB_congr {t t' : C37.Table} {k : Nat} (hb : t'.bucket k = t.bucket k) (hn : t'.now = t.now)
+    (ho : t'.ops = t.ops) : appliedB t' k = appliedB t k := by
+  unfold appliedB; rw [hb, hn, ho]
+
+theorem flatMap_congr' {α β} (l : List α) (f g : α → List β) (h : ∀ a ∈ l, f a = g a) :
+    l.flatMap f = l.flatMap g := by
+  induction l with
+  | nil => rfl
+  | cons a l ih =>
+    simp only [List.flatMap_cons]
+    rw [h a (by simp), ih fun x hx => h x (by simp [hx])]
+
+theorem closestWalk_cons (bsize target : Nat) (t : C37.Table) (i : Nat) (rest : List Nat) :
+    closestWalk bsize target t (i :: rest) =
+      ((closestWalk bsize target ((t.setBucket i (appliedB t i)).record
+          ((t.bucket i).applyPending t.now (2 * t.ops)).2) rest).1,
+        sortedKeys bsize target (appliedB t i) ++
+        (closestWalk bsize target ((t.setBucket i (appliedB t i)).record
+          ((t.bucket i).applyPending t.now (2 * t.ops)).2) rest).2) := by
+  simp only [closestWalk, appliedB, C37.Table.record]
+  cases ((t.bucket i).applyPending t.now (2 * t.ops)).2 <;> rfl
+
+/-- the walk visits each listed bucket once: it yields, bucket by bucket, the sorted keys of the
+bucket AFTER its pending entry was applied, and leaves exactly those buckets applied -/
+theorem walk_spec (bsize target : Nat) : ∀ (L : List Nat) (t : C37.Table), L.Nodup →
+    (∀ i ∈ L, i < t.buckets.length) →
+    (closestWalk bsize target t L).2 = L.flatMap (fun i => sortedKeys bsize target (appliedB t i)) ∧
+    (∀ j, (closestWalk bsize target t L).1.bucket j = if j ∈ L then appliedB t j else t.bucket j) ∧
+    (closestWalk bsize target t L).1.now = t.now ∧ (closestWalk bsize target t L).1.ops = t.ops ∧
+    (closestWalk bsize target t L).1.localKey = t.localKey ∧
+    (closestWalk bsize target t L).1.buckets.length = t.buckets.length := by
+  intro L
+  induction L with
+  | nil => intro t _ _; simp [closestWalk]
+  | cons i rest ih =>
+    intro t hnd hlt
+    rw [closestWalk_cons]
+    have hi : i < t.buckets.length := hlt i (by simp)
+    have hirest : i ∉ rest := (List.nodup_cons.1 hnd).1
+    have hbk : ∀ j, ((t.setBucket i (appliedB t i)).record
+        ((t.bucket i).applyPending t.now (2 * t.ops)).2).bucket j = if j = i then appliedB t i else t.bucket j := by
+      intro j; rw [C37.record_bucket, C37.bucket_setBucket t i j _ hi]
+    have hlen : ((t.setBucket i (appliedB t i)).record
+        ((t.bucket i).applyPending t.now (2 * t.ops)).2).buckets.length = t.buckets.length := by
+      rw [C37.record_len]; simp [C37.Table.setBucket]
+    obtain ⟨h1, h2, h3, h4, h5, h6⟩ := ih ((t.setBucket i (appliedB t i)).record
+        ((t.bucket i).applyPending t.now (2 * t.ops)).2) (List.nodup_cons.1 hnd).2
+        (fun k hk => by rw [hlen]; exact hlt k (by simp [hk]))
+    rw [C37.record_now] at h3
+    rw [C37.record_ops] at h4
+    rw [C37.record_local] at h5
+    have happ : ∀ k, k ≠ i → appliedB ((t.setBucket i (appliedB t i)).record
+        ((t.bucket i).applyPending t.now (2 * t.ops)).2) k = appliedB t k := by
+      intro k hk
+      apply appliedB_congr
+      · rw [hbk k]; simp only [hk, if_false]
+      · rw [C37.record_now]; rfl
+      · rw [C37.record_ops]; rfl
+    refine ⟨?_, ?_, h3, h4, h5, by rw [h6, hlen]⟩
+    · simp only [List.flatMap_cons]
+      rw [h1]
+      congr 1
+      apply flatMap_congr'
+      intro k hk
+      rw [happ k (fun e => hirest (e ▸ hk))]
+    · intro j
+      rw [h2 j]
+      by_cases hji : j = i
+      · subst hji
+        simp only [hirest, if_false, List.mem_cons, true_or, if_true]
+        rw [hbk j]; simp
+      · simp only [List.mem_cons, hji, false_or]
+        by_cases hjr : j ∈ rest
+        · simp only [hjr, if_true]; exact happ j hji
+        · simp only [hjr, if_false]; rw [hbk j]; simp [hji]
+
+/-- the key view of the table after all due pending entries were applied -/
+def viewApplied (s : Nat) (t : C37.Table) : Table :=
+  ⟨t.localKey, s, (List.range 256).map fun i => (appliedB t i).nodes.map (·.key)⟩
+
+theorem viewApplied_bucket (s : Nat) (t : C37.Table) {i : Nat} (hi : i < 256) :
+    (viewApplied s t).bucket i = (appliedB t i).nodes.map (·.key) := by
+  unfold Table.bucket viewApplied
+  simp [List.getD_eq_getElem?_getD, hi]
+
+theorem viewApplied_wf {t : C37.Table} (h : C37.TInv t) (s : Nat)
+    (hcap : ∀ i, i < 256 → (t.bucket i).capacity = s) : WF (viewApplied s t) := by
+  have hb : ∀ i, i < 256 → C37.BInv t.localKey i (2 * t.ops + 1) (appliedB t i) :=
+    fun i hi => C37.applyPending_inv (h.buckets i hi) t.now (Nat.le_refl _)
+  refine ⟨h.localLt, ?_, ?_, ?_⟩
+  · intro i hi k hk
+    rw [viewApplied_bucket s t hi] at hk
+    obtain ⟨n, hn, rfl⟩ := List.mem_map.1 hk
+    exact (hb i hi).index n hn
+  · intro i hi
+    rw [viewApplied_bucket s t hi]
+    exact (hb i hi).nodup
+  · intro i hi
+    rw [viewApplied_bucket s t hi, List.length_map]
+    have := (hb i hi).len
+    have hc : (appliedB t i).capacity = s := by
+      unfold appliedB; rw [C37.applyPending_cap]; exact hcap i hi
+    rw [hc] at this
+    exact this
+
+/-- **C38 on the full table** — for every table satisfying the C37 invariant (entries of both
+statuses, pending entries, any clock value) and every target: `closest_keys` applies, in each
+bucket, the pending entry if it is due (and nothing else changes); what it yields is exactly the set
+of keys stored AFTER these applications — every such key exactly once — in strictly increasing XOR
+distance to the target; and the table invariant is preserved. -/
+theorem closest_complete_sorted {t : C37.Table} (h : C37.TInv t) (s target : Nat) (ht : target < 2 ^ 256)
+    (hcap : ∀ i, i < 256 → (t.bucket i).capacity = s) :
+    (∀ j, j < 256 → (closestFull s t target).1.bucket j = appliedB t j) ∧
+    (closestFull s t target).2.Perm (storedKeys (closestFull s t target).1) ∧
+    (closestFull s t target).2.Nodup ∧
+    (∀ k, k ∈ storedKeys (closestFull s t target).1 → (closestFull s t target).2.count k = 1) ∧
+    (closestFull s t target).2.Pairwise (fun a b => target ^^^ a < target ^^^ b) ∧
+    C37.TInv (closestFull s t target).1 := by
+  have hd : t.localKey ^^^ target < 2 ^ 256 := Nat.xor_lt_two_pow h.localLt ht
+  have hL := bucket_order_nodup _ hd
+  have hmem := bucket_order_mem _ hd
+  obtain ⟨h1, h2, h3, h4, h5, h6⟩ := walk_spec s target (bucketOrder (t.localKey ^^^ target)) t hL
+    (fun i hi => by rw [h.len]; exact (hmem i).1 hi)
+  have hout : (closestFull s t target).2 = closestKeys (viewApplied s t) target := by
+    show (closestWalk s target t (bucketOrder (t.localKey ^^^ target))).2 = _
+    rw [h1]
+    unfold closestKeys closestWith
+    apply flatMap_congr'
+    intro i hi
+    have hi' := (hmem i).1 hi
+    unfold bucketSorted sortedKeys
+    rw [viewApplied_bucket s t hi']
+    rfl
+  have hbk : ∀ j, j < 256 → (closestFull s t target).1.bucket j = appliedB t j := by
+    intro j hj
+    show ((closestWalk s target t (bucketOrder (t.localKey ^^^ target))).1.bump).bucket j = _
+    rw [C37.bump_bucket, h2 j, if_pos ((hmem j).2 hj)]
+  have hstored : storedKeys (closestFull s t target).1 = (viewApplied s t).keys := by
+    unfold storedKeys Table.keys
+    apply flatMap_congr'
+    intro i hi
+    have hi' : i < 256 := List.mem_range.1 hi
+    rw [hbk i hi', viewApplied_bucket s t hi']
+  have hwf := viewApplied_wf h s hcap
+  obtain ⟨c1, c2, c3, _⟩ := complete_sorted hwf target ht
+  refine ⟨hbk, ?_, ?_, ?_, ?_, ?_⟩
+  · rw [hout, hstored]; exact c1
+  · rw [hout]; exact c2
+  · intro k hk; rw [hout]; rw [hstored] at hk; exact c3 k hk
+  · rw [hout]; exact sorted hwf target ht
+  · apply C37.finish' (t := t) _ h4
+    refine ⟨by rw [h5]; exact h.localLt, by rw [h6]; exact h.len, ?_⟩
+    intro j hj
+    rw [h5, h2 j, if_pos ((hmem j).2 hj)]
+    exact C37.applyPending_inv (h.buckets j hj) t.now (Nat.le_refl _)
+
+/-- the Spec (every stored key exactly once, sorted) accepts the model's output against the
+model's own post-call table -/
+theorem spec_closest_full {t : C37.Table} (h : C37.TInv t) (s target : Nat) (ht : target < 2 ^ 256)
+    (hcap : ∀ i, i < 256 → (t.bucket i).capacity = s) :
+    spec (storedKeys (closestFull s t target).1) target (closestFull s t target).2 = true := by
+  obtain ⟨_, hp, hnd, _, hs, _⟩ := closest_complete_sorted h s target ht hcap
+  simp only [spec, Bool.and_eq_true]
+  exact ⟨exactlyOnce_of_perm hp hnd, sortedTo_of_pairwise target _ (hs.imp Nat.le_of_lt)⟩
+
 end C38
 
 #print axioms C38.bucketOrder_eq
@@ -399,6 +571,9 @@ end C38
 #print axioms C38.wf_insert
 #print axioms C38.wf_reachable
 #print axioms C38.spec_closest
+#print axioms C38.walk_spec
+#print axioms C38.closest_complete_sorted
+#print axioms C38.spec_closest_full
 #print axioms C38.spec_order
 #print axioms C38.spec_sound
 #print axioms C38.bucket0_twice_buggy_counterexample
